@@ -1011,8 +1011,9 @@ class Engine:
             r.is_list = a.is_list
             i = fresh_int("i")
             st.assume(r.n == a.n + b.n)
-            st.assume(z3.ForAll([i], z3.Implies(z3.And(i >= 0, i < a.n), z3.Select(r.arr, i) == z3.Select(a.arr, i))))
-            st.assume(z3.ForAll([i], z3.Implies(z3.And(i >= 0, i < b.n), z3.Select(r.arr, a.n + i) == z3.Select(b.arr, i))))
+            st.assume(z3.ForAll([i], z3.Implies(z3.And(i >= 0, i < r.n),
+                                                z3.Select(r.arr, i) == z3.If(i < a.n, z3.Select(a.arr, i), z3.Select(b.arr, i - a.n))),
+                                patterns=[z3.Select(r.arr, i)]))
             return r
         if op == "Mult" and ((isinstance(a, Seq) and isinstance(b, Num)) or (isinstance(b, Seq) and isinstance(a, Num))):
             s, k = (a, b) if isinstance(a, Seq) else (b, a)
